@@ -10,7 +10,14 @@ A spec is a JSON dict:
    'code': [cls, args], 'dec': [cls, kwargs], 'em': [cls, args], 'p': float,
    'syn': '0101' | rows 'a/b/c' (decode ops), 'err': bits passed as context `error` (decode ops, main process only),
    'meas': rows of measurement flips passed as `step_measurement_errors` (decode_ftp; the rotated toric decoder needs them),
-   'T': int, 'q': float|None, 'seed': int, 'max_runs': int, 'max_failures': int|None}
+   'T': int, 'q': float|None, 'seed': int, 'max_runs': int, 'max_failures': int|None,
+   'mut': int (optional: after the call the CALLER flips, in place, bits of every array the API handed back to it as a
+          result — recovery / DecodeResult fields / arrays of the run dict / the generated error; the int seeds which)}
+  op 'generate' = error_model.generate(code, p, default_rng(seed)).
+In shared mode a decode / decode_ftp / generate call carrying 'mut' is repeated right after the caller's modification and
+must give the first answer again; in both modes the arrays handed back are checked for identity / shared memory with the
+arrays handed back by earlier calls and with every array reachable from a functools cache of qecsim or from the
+attributes of the code / decoder / error-model objects (and their classes).
 Results are canonical strings; exceptions become 'EXC:<type>'; a call exceeding the time limit becomes 'TIMEOUT'.
 """
 import hashlib
@@ -61,6 +68,7 @@ class Pool:
     def __init__(self, shared):
         self.shared = shared
         self.objs = {}
+        self.handed = []  # arrays handed back to the caller by earlier calls (kept alive: ids / memory stay distinct)
 
     def get(self, table, spec):
         name, args = spec
@@ -79,8 +87,8 @@ class Pool:
 _CACHED = None
 
 
-def clear_all_caches():
-    """cache_clear() on every functools cache reachable from the qecsim modules"""
+def _scan_caches():
+    """find every functools cache reachable from the qecsim modules"""
     global _CACHED
     if _CACHED is None:
         import importlib
@@ -110,7 +118,12 @@ def clear_all_caches():
         for m in mods:
             scan(m, 0)
         _CACHED = list(found.values())
-    for f in _CACHED:
+    return _CACHED
+
+
+def clear_all_caches():
+    """cache_clear() on every functools cache reachable from the qecsim modules"""
+    for f in _scan_caches():
         f.cache_clear()
     return len(_CACHED)
 
@@ -175,8 +188,99 @@ def code_digest(code):
     return '/'.join(digest(x) for x in (code.stabilizers, code.logical_xs, code.logical_zs, code.logicals))
 
 
-def execute(spec, pool, limit, watch=None):
-    """returns (canonical result, list of mutation notes)"""
+def result_arrays(raw):
+    """the ndarray objects a call handed to the caller as (parts of) its result"""
+    from qecsim.model import DecodeResult
+    if isinstance(raw, np.ndarray):
+        return [raw]
+    if isinstance(raw, DecodeResult):
+        return [a for a in (raw.recovery, raw.logical_commutations, raw.custom_values) if isinstance(a, np.ndarray)]
+    if isinstance(raw, dict):
+        return [v for k, v in sorted(raw.items()) if isinstance(v, np.ndarray)]
+    if isinstance(raw, (tuple, list)):
+        return [a for a in raw if isinstance(a, np.ndarray)]
+    return []
+
+
+def caller_mutates(arrays, seed):
+    """the caller owns what it was handed back: flip ~half of the entries (at least one) of every result array in place"""
+    r = random.Random(seed)
+    done = 0
+    for a in arrays:
+        if not a.flags.writeable or a.size == 0:
+            continue
+        flat = a.reshape(-1) if a.flags.c_contiguous else None
+        if flat is None or not np.shares_memory(flat, a):
+            continue
+        idx = [i for i in range(flat.size) if r.random() < 0.5] or [r.randrange(flat.size)]
+        if a.dtype.kind in 'iub':
+            flat[idx] = 1 - flat[idx] if a.dtype.kind != 'b' else ~flat[idx]
+        elif a.dtype.kind == 'f':
+            flat[idx] = flat[idx] + 1.0
+        else:
+            continue
+        done += 1
+    return done
+
+
+def _walk(obj, out, depth, seen):
+    if id(obj) in seen:
+        return
+    seen.add(id(obj))
+    if isinstance(obj, np.ndarray):
+        out[id(obj)] = obj
+        return
+    if depth <= 0:
+        return
+    if isinstance(obj, (tuple, list, set, frozenset)):
+        for x in obj:
+            _walk(x, out, depth - 1, seen)
+    elif isinstance(obj, dict):
+        for x in obj.values():
+            _walk(x, out, depth - 1, seen)
+    elif type(obj).__name__ == '_lru_list_elem' or isinstance(obj, (str, bytes, int, float, complex, type(None))):
+        return
+    elif getattr(type(obj), '__module__', '').startswith('qecsim') and hasattr(obj, '__dict__'):
+        for x in vars(obj).values():
+            _walk(x, out, depth - 1, seen)
+
+
+def cached_arrays(objs=()):
+    """id -> ndarray for every array reachable from a functools cache of the qecsim modules (keys and results of
+    lru_cache wrappers are gc referents of the wrapper) and from the attributes of `objs` and of their classes"""
+    import gc
+    out, seen = {}, set()
+    for f in _scan_caches():
+        for r in gc.get_referents(f):
+            if isinstance(r, (np.ndarray, tuple, list, dict, set, frozenset)) or \
+                    getattr(type(r), '__module__', '').startswith('qecsim'):
+                if isinstance(r, dict) and '__wrapped__' in r:
+                    continue
+                _walk(r, out, 4, seen)
+    for o in objs:
+        for klass in type(o).__mro__:
+            if getattr(klass, '__module__', '').startswith('qecsim'):
+                for v in vars(klass).values():
+                    if isinstance(v, (np.ndarray, tuple, list, dict, set, frozenset)):
+                        _walk(v, out, 4, seen)
+        if hasattr(o, '__dict__'):
+            _walk(vars(o), out, 4, seen)
+    return out
+
+
+def shares(a, b):
+    if a is b:
+        return True
+    if not np.may_share_memory(a, b):
+        return False
+    try:
+        return bool(np.shares_memory(a, b, max_work=10000))
+    except Exception:  # noqa: too hard to decide exactly: bounds overlap, treat as sharing
+        return True
+
+
+def execute(spec, pool, limit, watch=None, shared=False):
+    """returns (canonical result, list of notes); notes are tagged ARG / CODE / ALIAS / CACHE-WRITE / REPEAT"""
     from qecsim import app
     code = pool.get(CODES, spec['code'])
     dec = pool.get(DECODERS, spec['dec'])
@@ -195,47 +299,91 @@ def execute(spec, pool, limit, watch=None):
             args['meas'] = np.array([parse_bits(r) for r in spec['meas'].split('/')])
     before = {k: digest(v) for k, v in args.items()}
     cbefore = [(c, code_digest(c)) for c in (watch or [])] + [(code, code_digest(code))]
-    random.seed(PIN)
-    old = signal.signal(signal.SIGALRM, _alarm)
-    signal.setitimer(signal.ITIMER_REAL, limit)
-    try:
+    held = {i: (a, digest(a)) for i, a in cached_arrays((code, dec, em)).items()} if shared else {}
+
+    def call():
+        random.seed(PIN)
+        ctx = {'error_model': em, 'error_probability': p}
+        if 'err' in args:
+            ctx['error'] = args['err']
+        if 'meas' in args:
+            ctx['step_measurement_errors'] = list(args['meas'])
+        if op == 'decode':
+            raw = dec.decode(code, args['syn'], **ctx)
+            return raw, canon_decoding(raw)
+        if op == 'decode_ftp':
+            raw = dec.decode_ftp(code, spec['T'], args['syn'], measurement_error_probability=spec['q'], **ctx)
+            return raw, canon_decoding(raw)
+        if op == 'generate':
+            raw = em.generate(code, p, np.random.default_rng(spec['seed']))
+            return raw, bits(raw)
+        if op == 'run_once':
+            raw = app.run_once(code, em, dec, p, rng=np.random.default_rng(spec['seed']))
+        elif op == 'run_once_ftp':
+            raw = app.run_once_ftp(code, spec['T'], em, dec, p, spec['q'], rng=np.random.default_rng(spec['seed']))
+        elif op == 'run':
+            raw = app.run(code, em, dec, p, max_runs=spec['max_runs'], max_failures=spec.get('max_failures'),
+                          random_seed=spec['seed'])
+        elif op == 'run_ftp':
+            raw = app.run_ftp(code, spec['T'], em, dec, p, spec['q'], max_runs=spec['max_runs'],
+                              max_failures=spec.get('max_failures'), random_seed=spec['seed'])
+        else:
+            raise ValueError('unknown op ' + op)
+        return raw, canon_dict(raw)
+
+    def timed():
+        old = signal.signal(signal.SIGALRM, _alarm)
+        signal.setitimer(signal.ITIMER_REAL, limit)
         try:
-            ctx = {'error_model': em, 'error_probability': p}
-            if 'err' in args:
-                ctx['error'] = args['err']
-            if 'meas' in args:
-                ctx['step_measurement_errors'] = list(args['meas'])
-            if op == 'decode':
-                res = canon_decoding(dec.decode(code, args['syn'], **ctx))
-            elif op == 'decode_ftp':
-                res = canon_decoding(dec.decode_ftp(code, spec['T'], args['syn'],
-                                                    measurement_error_probability=spec['q'], **ctx))
-            elif op == 'run_once':
-                res = canon_dict(app.run_once(code, em, dec, p, rng=np.random.default_rng(spec['seed'])))
-            elif op == 'run_once_ftp':
-                res = canon_dict(app.run_once_ftp(code, spec['T'], em, dec, p, spec['q'],
-                                                  rng=np.random.default_rng(spec['seed'])))
-            elif op == 'run':
-                res = canon_dict(app.run(code, em, dec, p, max_runs=spec['max_runs'],
-                                         max_failures=spec.get('max_failures'), random_seed=spec['seed']))
-            elif op == 'run_ftp':
-                res = canon_dict(app.run_ftp(code, spec['T'], em, dec, p, spec['q'], max_runs=spec['max_runs'],
-                                             max_failures=spec.get('max_failures'), random_seed=spec['seed']))
-            else:
-                raise ValueError('unknown op ' + op)
-        finally:
-            signal.setitimer(signal.ITIMER_REAL, 0)
-            signal.signal(signal.SIGALRM, old)
-    except Expired:
-        res = 'TIMEOUT'
-    except Exception as ex:  # noqa: deterministic exceptions are results too
-        res = 'EXC:' + type(ex).__name__
+            try:
+                return call()
+            finally:
+                signal.setitimer(signal.ITIMER_REAL, 0)
+                signal.signal(signal.SIGALRM, old)
+        except Expired:
+            return None, 'TIMEOUT'
+        except Exception as ex:  # noqa: deterministic exceptions are results too
+            return None, 'EXC:' + type(ex).__name__
+
+    raw, res = timed()
     for k, v in args.items():
         if digest(v) != before[k]:
-            notes.append('argument array {} modified by the call'.format(k))
+            notes.append('ARG: argument array {} modified by the call'.format(k))
     for c, d in cbefore:
         if code_digest(c) != d:
-            notes.append('stabilizers/logicals of {!r} modified by the call'.format(c))
+            notes.append('CODE: stabilizers/logicals of {!r} modified by the call'.format(c))
+    for i, (a, d) in held.items():
+        if digest(a) != d:
+            notes.append('CACHE-WRITE: the call modified in place an array (shape {}) that was held in a functools '
+                         'cache / object attribute before the call'.format(a.shape))
+            break
+    outs = result_arrays(raw)
+    # identity: what the API hands back is the caller's own — never an array handed back before, never cache memory
+    for a in outs:
+        if any(shares(a, b) for b in pool.handed):
+            notes.append('ALIAS: the call handed back an array that is / shares memory with an array handed back by an '
+                         'earlier call')
+            break
+    if outs:
+        inner = cached_arrays((code, dec, em))
+        for a in outs:
+            hit = [c for c in inner.values() if shares(a, c)]
+            if hit:
+                notes.append('ALIAS: the call handed back an array that {} an array (shape {}) held in a functools cache '
+                             '/ object attribute of qecsim'.format('is' if any(a is c for c in hit) else 'shares memory with',
+                                                                  hit[0].shape))
+                break
+    if shared:
+        pool.handed.extend(outs)
+    if spec.get('mut') is not None and outs:
+        caller_mutates(outs, spec['mut'])
+        if shared and op in ('decode', 'decode_ftp', 'generate'):
+            raw2, res2 = timed()
+            if 'TIMEOUT' not in (res, res2) and res2 != res:
+                notes.append('REPEAT: the caller modified in place the arrays it was handed back as the result, then '
+                             'repeated the same call on the same objects: different result (first {} second {})'.format(
+                                 res[:300], res2[:300]))
+            pool.handed.extend(result_arrays(raw2))
     return res, notes
 
 
@@ -256,7 +404,7 @@ def main():
         for spec in hist:
             if not shared:
                 clear_all_caches()
-            res, notes = execute(spec, pool, job.get('limit', 60), watch=pool.codes() if shared else None)
+            res, notes = execute(spec, pool, job.get('limit', 60), watch=pool.codes() if shared else None, shared=shared)
             cd = None
             if not shared:
                 clear_all_caches()
